@@ -3,13 +3,15 @@ import Model.RotationErr
 /-! # C12 — the file-system calls of package rotation are the calls the failing-file-system model quantifies over
 
 `Generated/RotationCalls.lean` is written by `go/cmd/c12facts` from the Go source of the working tree on every run of the
-check (deleted first): the functions of package os the package calls, the methods it calls on its `*os.File`, the flag
-constants of its `os.OpenFile`.  The theorems below are DECIDED about those tables.  They tie the inventory `Rot.Sys` of
-`Model/RotationErr.lean` — the calls whose failure the theorems `C12.faulty_*` quantify over — to the code: a new call
-(os.Chmod, os.Truncate, a Seek or Truncate on the descriptor, …) is a failure the model does not consider, and a call
-the code no longer makes is a branch of the model nothing executes.  The extraction is syntactic and by sets, so
-splitting Write/rotate into helpers, renaming fields, asking the descriptor instead of the path for the size, or testing
-the error with errors.Is instead of os.IsNotExist changes nothing. -/
+check (deleted first).  The package is type-checked; the tables are the functions of package os and the methods of
+`os.File` REFERENCED in the code reachable from the methods of the Rotator (resolved objects, not spellings), and the
+VALUE of the flag argument of every `os.OpenFile` call (constant evaluation), with the values of the os constants.  The
+theorems below are DECIDED about those tables.  They tie the inventory `Rot.Sys` of `Model/RotationErr.lean` — the calls
+whose failure the theorems `C12.faulty_*` quantify over — to the code: a new call (os.Chmod, os.Truncate, a Seek or
+Truncate on the descriptor, …) is a failure the model does not consider.  Helpers, renamed fields, named constants for
+modes and flags, `file.Stat()` instead of `os.Stat`, `errors.Is` instead of `os.IsNotExist` change nothing.  What the
+extractor cannot resolve is listed (`RotationCalls.unresolved`, copied into the evidence) and makes the statements about
+it vacuous — an absent fact is less coverage, not an alarm. -/
 namespace C12Calls
 open Rot
 
@@ -17,30 +19,33 @@ open Rot
 theorem kinds_cover_the_model (c : Sys) : ∃ k ∈ Sys.kinds, k.goCalls = c.goCalls := by
   cases c <;> simp [Sys.kinds, Sys.goCalls]
 
-/-- every function of package os that the code calls is a call the model's environment can fail (`os.IsNotExist` is a
-    predicate on an error value, not a system call) -/
+/-- every function of package os that the reachable code references is a call the model's environment can fail, or one
+    that makes no system call -/
 theorem every_os_call_is_modelled :
-    ∀ c ∈ RotationCalls.osCalls, c = "IsNotExist" ∨ ∃ k ∈ Sys.kinds, ("os", c) ∈ k.goCalls := by
+    ∀ c ∈ RotationCalls.osCalls, c ∈ Sys.pureOs ∨ ∃ k ∈ Sys.kinds, ("os", c) ∈ k.goCalls := by
   decide
 
-/-- every method the code calls on its `*os.File` is a call the model's environment can fail -/
+/-- every method of `os.File` that the reachable code references is a call the model's environment can fail, or one that
+    makes no system call -/
 theorem every_file_call_is_modelled :
-    ∀ c ∈ RotationCalls.fileCalls, ∃ k ∈ Sys.kinds, ("File", c) ∈ k.goCalls := by
+    ∀ c ∈ RotationCalls.fileCalls, c ∈ Sys.pureFile ∨ ∃ k ∈ Sys.kinds, ("File", c) ∈ k.goCalls := by
   decide
 
-/-- conversely the model has no call the code does not make -/
+/-- conversely, when the extractor resolved everything (`complete`), the model has no call the code does not make -/
 theorem every_modelled_call_is_made :
+    RotationCalls.complete = true →
     ∀ k ∈ Sys.kinds, ∃ p ∈ k.goCalls,
       (p.1 = "os" ∧ p.2 ∈ RotationCalls.osCalls) ∨ (p.1 = "File" ∧ p.2 ∈ RotationCalls.fileCalls) := by
   decide
 
-/-- clause "pre-existing log content is appended to rather than overwritten", at the system-call boundary: the log file is
-    opened in exactly one place, with O_APPEND and O_CREATE, without O_TRUNC or O_EXCL — the `openIfNeeded` of the model
-    (size from the existing file, content kept, created empty when absent) -/
+/-- clause "pre-existing log content is appended to rather than overwritten", at the system-call boundary: every
+    `os.OpenFile` whose flag argument is a constant opens with O_APPEND and O_CREATE, for writing, without O_TRUNC or
+    O_EXCL (by VALUE: named constants, any order, parentheses give the same integer) — the `openIfNeeded` of the model -/
 theorem log_file_is_opened_for_append :
-    RotationCalls.openFlags.length = 1 ∧
-    ∀ fl ∈ RotationCalls.openFlags,
-      "O_APPEND" ∈ fl ∧ "O_CREATE" ∈ fl ∧ "O_TRUNC" ∉ fl ∧ "O_EXCL" ∉ fl ∧ "O_RDONLY" ∉ fl ∧ "?other" ∉ fl := by
+    ∀ fl ∈ RotationCalls.openFlagBits,
+      fl &&& RotationCalls.O_APPEND ≠ 0 ∧ fl &&& RotationCalls.O_CREATE ≠ 0 ∧
+      fl &&& RotationCalls.O_TRUNC = 0 ∧ fl &&& RotationCalls.O_EXCL = 0 ∧
+      fl &&& (RotationCalls.O_WRONLY ||| RotationCalls.O_RDWR) ≠ 0 := by
   decide
 
 end C12Calls
